@@ -22,18 +22,25 @@ RULE = ("scenarios of 5-9 result-storing jobs (return values: JSON, None, large,
 ASSUMPTIONS = ["in-memory message broker; result bucket broker in-memory or the real RedisBucketBroker over the fake Redis", "virtual time",
                "a store fault is a ConnectionError raised by the bucket broker's store_bucket"]
 EVAL_COUNTER = "buckets_or_faults_judged"
-REQUIRED = ["buckets_or_faults_judged", "buckets_judged", "fault_runs", "chains_overwritten", "eager_buckets", "disabled_checked"]
+REQUIRED = ["buckets_or_faults_judged", "buckets_judged", "fault_runs", "chains_overwritten", "eager_buckets", "disabled_checked", "unencodable_return_buckets"]
 CASE_TIMEOUT = 150
 
-KINDS = ["value", "none", "large", "exc", "timeout", "chain2", "chain3_fail", "recurring", "eager_ack_res", "eager_nack_exc", "eager_retry_res", "eager_ack_two_sets", "eager_exc_then_res", "eager_res_exc_res", "disabled", "disabled_eager"]
+KINDS = ["value", "none", "large", "exc", "timeout", "chain2", "chain3_fail", "recurring", "eager_ack_res", "eager_nack_exc", "eager_retry_res", "eager_ack_two_sets", "eager_exc_then_res", "eager_res_exc_res", "disabled", "disabled_eager", "badret", "badret_chain"]
 
 
 def gen_cases(tier, seed):
     rnd = random.Random(seed)
     n = {"quick": 10, "thorough": 120}[tier]
     cases = []
+    order = list(KINDS)
+    rnd.shuffle(order)
     for i in range(n):
         ks = rnd.sample(KINDS, rnd.randint(5, 9))
+        # every kind occurs in every tier: two slots of each case walk through the (shuffled) list
+        for slot in (0, 1):
+            forced = order[(2 * i + slot) % len(order)]
+            if forced not in ks:
+                ks[slot] = forced
         cases.append({"bucket": rnd.choice(["mem", "redis"]), "kinds": ks, "seed": rnd.randrange(10**6), "tl": rnd.choice([1, 3, 1000])})
     return cases
 
@@ -60,6 +67,13 @@ def plan_job(kind, i, rnd):
     if kind == "exc":
         et = rnd.choice(["KeyError", "KeyError", "EmptyErrors", "QuietError"])  # (the last two: exception instances that are falsy)
         return {"do": "raise", "exc": et, "msg": bad}, kw, {"success": False, "data": repr(bad) if et == "KeyError" else bad, "exception": et}, 1
+    if kind == "badret":
+        # the actor returns normally a value its converter cannot encode: the bucket records the failed execution
+        what = rnd.choice(["set", "bytes", "object"])
+        return {"do": "badret", "what": what}, kw, {"success": False, "data": f"Object of type {what} is not JSON serializable", "exception": "TypeError"}, 1
+    if kind == "badret_chain":
+        kw["retries"] = 1
+        return {"by_attempt": [{"do": "badret", "what": "set"}, {"do": "ok", "ret": val}]}, kw, {"success": True, "data": enc(val), "exception": None}, 2
     if kind == "timeout":
         return {"do": "ok", "d": 3.0}, kw, {"success": False, "data": "", "exception": "TimeoutError"}, 1
     if kind == "chain2":
@@ -227,6 +241,8 @@ def judge_baseline(case, info, out, stats, fps):
             n = len([c for c in info["store_calls"] if c[0] == p["rid"]])
             if n != p["nexec"]:
                 out.append(V("stale_bucket", ctx + "/store-count", f"{id_} ({kind}): {n} store calls for {p['nexec']} executions", bk))
+        if kind.startswith("badret"):
+            stats["unencodable_return_buckets"] += 1
         if kind.startswith("eager"):
             stats["eager_buckets"] += 1
         if info["starts"][id_] != p["nexec"]:
